@@ -117,7 +117,7 @@ theorem addEdge_nodes (nb : NetObj W Seq.Obs) (e : Edge W) (sc tc : Seq.Obs) :
 end plain
 
 section ordered
-variable {W : Type} [AddCommMonoid W] [LinearOrder W] [IsOrderedAddMonoid W]
+variable {W : Type} [LinearOrder W] [Add W] [Zero W] [WalkAdd W]
 
 /-- `NEXT_EDGES[u]` lists, in insertion order, the ids of the edges of `EDGES` that their CURRENT orientation attribute
 permits to leave from `u` -/
